@@ -256,7 +256,12 @@ func TestC02(t *testing.T) {
 		}(w)
 	}
 	wg.Wait()
-	r.Require("histories", "restarts_inside_histories", "calls_failed_by_io_error", "calls_failed_by_audit_error", "failed_calls", "shape_delete_newest_version", "shape_put_after_newest_deleted", "shape_put_empty_after_newest_deleted",
+	if r.Only < 0 {
+		for i := 0; i < r.N(30, 300); i++ {
+			overlappingPuts(t, r, dir, i)
+		}
+	}
+	r.Require("overlapping_puts", "histories", "restarts_inside_histories", "calls_failed_by_io_error", "calls_failed_by_audit_error", "failed_calls", "shape_delete_newest_version", "shape_put_after_newest_deleted", "shape_put_empty_after_newest_deleted",
 		"shape_put_duplicate_of_newest", "shape_put_duplicate_of_older", "shape_activate_backwards", "shape_recreate_after_delete")
 	r.Rule("seeded random histories of 30-60 operations (all 9 operations, weighted towards put/activate/delete-version) over 3 ordinary names plus the empty and a reserved name, values from a 4-element pool incl. the empty value; oracle after every step. A case is distinct by (operation, precondition class of its name/version argument, model outcome class); named shapes are counted in 'observed'")
 }
@@ -270,4 +275,83 @@ func (s *flakySink) Sync() error {
 		return errors.New("injected: audit log fsync failed")
 	}
 	return nil
+}
+
+// overlappingPuts: the per-call clauses of the specification when calls overlap: several clients put distinct
+// values under ONE name at once. Every put returns a version number of its own, and that number is bound to
+// the bytes of that very put, at once and for good.
+func overlappingPuts(t *testing.T, r *evid.Run, dir string, idx int) {
+	r.Eval(1)
+	os.MkdirAll(filepath.Join(dir, fmt.Sprintf("op%d", idx)), 0o700)
+	d, err := realdb.Open(filepath.Join(dir, fmt.Sprintf("op%d", idx), "db"), realdb.DummyKey("c02op"))
+	if err != nil {
+		t.Error(err)
+		return
+	}
+	su := realdb.Super()
+	const W, K = 8, 8
+	type rec struct {
+		v   uint32
+		val string
+	}
+	got := make([][]rec, W)
+	var wg sync.WaitGroup
+	var gate atomic.Bool
+	var bad atomic.Int32
+	for w := 0; w < W; w++ {
+		wg.Add(1)
+		go func(w int) {
+			defer wg.Done()
+			for !gate.Load() {
+			}
+			for k := 0; k < K; k++ {
+				val := fmt.Sprintf("case %d writer %d value %d", idx, w, k)
+				res := ops.ApplyReal(d, su, ops.Op{Kind: ops.Put, Name: "shared", Value: []byte(val)})
+				r.Count("overlapping_puts", 1)
+				if res.Class != refmodel.OK {
+					if bad.Add(1) <= 2 {
+						r.Violation("result-differs", idx, fmt.Sprintf("overlapping puts case %d: put of %q failed: %s", idx, val, res), nil)
+					}
+					return
+				}
+				got[w] = append(got[w], rec{res.Version, val})
+				back := ops.ApplyReal(d, su, ops.Op{Kind: ops.GetVer, Name: "shared", Version: res.Version})
+				if (back.Class != refmodel.OK || back.Bytes != val) && bad.Add(1) <= 2 {
+					r.Violation("put-result-not-retrievable", idx, fmt.Sprintf("overlapping puts case %d: Put(%q) returned version %d, but version %d holds %q (%s)", idx, val, res.Version, res.Version, back.Bytes, back.Class), nil)
+				}
+			}
+		}(w)
+	}
+	gate.Store(true)
+	wg.Wait()
+	if bad.Load() > 0 {
+		return
+	}
+	seen := map[uint32]string{}
+	for w := range got {
+		last := uint32(0)
+		for _, rc := range got[w] {
+			if prev, dup := seen[rc.v]; dup {
+				r.Violation("version-issued-twice", idx, fmt.Sprintf("overlapping puts case %d: version %d was returned for %q and for %q", idx, rc.v, prev, rc.val), nil)
+				return
+			}
+			seen[rc.v] = rc.val
+			if rc.v <= last {
+				r.Violation("versions-went-back", idx, fmt.Sprintf("overlapping puts case %d: writer %d received version %d after version %d", idx, w, rc.v, last), nil)
+				return
+			}
+			last = rc.v
+		}
+	}
+	for v, val := range seen {
+		back := ops.ApplyReal(d, su, ops.Op{Kind: ops.GetVer, Name: "shared", Version: v})
+		if back.Class != refmodel.OK || back.Bytes != val {
+			r.Violation("bytes-of-a-version-changed", idx, fmt.Sprintf("overlapping puts case %d: version %d was acknowledged for %q and now holds %q (%s)", idx, v, val, back.Bytes, back.Class), nil)
+			return
+		}
+	}
+	if len(seen) != W*K {
+		r.Violation("result-differs", idx, fmt.Sprintf("overlapping puts case %d: %d puts, %d distinct versions", idx, W*K, len(seen)), nil)
+	}
+	r.Distinct("overlapping puts on one name")
 }
